@@ -187,6 +187,11 @@ def tlc(ctx, spec_dir, module, cfg, mode="mc", workers=None, timeout=600, sim_nu
         raise Infra("TLC failed on %s/%s: %s\n%s" % (spec_dir, cfg_name, fatal.group(1), tail))
     if fatal and res["violated"] is None:
         raise Infra("TLC error")
+    if mode == "mc" and res["violated"] is None and "Model checking completed" not in out:
+        # e.g. the JVM was killed from outside: a truncated exploration must never pass as a result
+        raise Infra("TLC on %s/%s did not complete (rc %s)\n%s" % (spec_dir, cfg_name, p.returncode, "\n".join(out.splitlines()[-15:])))
+    if mode == "sim" and "Finished in" not in out:
+        raise Infra("TLC simulation on %s/%s did not complete (rc %s)" % (spec_dir, cfg_name, p.returncode))
     ctx.cov["tlc_runs"].append({"spec": spec_dir + "/" + module, "cfg": cfg_name, "mode": mode,
                                 "generated": res["generated"], "distinct": res["distinct"], "depth": res["depth"],
                                 "violated": res["violated"], "wall_s": res["wall_s"]})
@@ -298,6 +303,42 @@ def run_bin(ctx, binary, args, timeout=900, env=None, stdin=None, cwd=None):
     ctx.cov["harness_runs"].append({"bin": os.path.basename(binary), "args": [a if len(a) < 80 else "..." for a in args],
                                     "rc": p.returncode, "wall_s": res["wall_s"]})
     return res
+
+
+def run_sharded(ctx, binary, cases, mkargs, shards=6, timeout=2400, tag="shard"):
+    """Run `binary` on `cases` split over several processes. mkargs(inp, outp) -> argument list. Returns the result rows
+    in case order (each harness numbers its rows from 0; the order within a shard is the input order)."""
+    shards = max(1, min(shards, len(cases)))
+    parts = [cases[i::shards] for i in range(shards)]
+    procs = []
+    e = go_env()
+    e["VERIF_SEED"] = str(ctx.seed)
+    e["VERIF_TIER"] = ctx.tier
+    e["VERIF_REPO"] = REPO
+    t0 = time.time()
+    for k, part in enumerate(parts):
+        inp, outp = ctx.path(tag, "in_%d.jsonl" % k), ctx.path(tag, "out_%d.jsonl" % k)
+        write_jsonl(inp, part)
+        errp = open(ctx.path(tag, "err_%d.txt" % k), "w")
+        procs.append((subprocess.Popen([binary] + mkargs(inp, outp), env=e, stdout=subprocess.DEVNULL, stderr=errp, cwd=ctx.scratch), outp, errp, len(part)))
+    rows = [None] * len(cases)
+    for k, (p, outp, errp, n) in enumerate(procs):
+        try:
+            rc = p.wait(timeout=max(1, timeout - (time.time() - t0)))
+        except subprocess.TimeoutExpired:
+            for q, _, _, _ in procs:
+                q.kill()
+            raise Infra("harness %s timed out after %ss" % (os.path.basename(binary), timeout))
+        errp.close()
+        if rc != 0:
+            raise Infra("harness %s shard %d failed: %s" % (os.path.basename(binary), k, open(errp.name).read()[-1500:]))
+        res = read_jsonl(outp)
+        if len(res) != n:
+            raise Infra("harness %s shard %d: %d results for %d cases" % (os.path.basename(binary), k, len(res), n))
+        for j, r in enumerate(res):
+            rows[k + j * shards] = r
+    ctx.cov["harness_runs"].append({"bin": os.path.basename(binary), "shards": shards, "cases": len(cases), "wall_s": round(time.time() - t0, 2)})
+    return rows
 
 
 def read_jsonl(path):
